@@ -148,7 +148,8 @@ type c10Case struct {
 
 var c10Alphabet = func() []c10Ev {
 	evs := []c10Ev{{K: "w", A: 0x6000, V: 0}, {K: "w", A: 0x6000, V: 1}, {K: "tick"}, {K: "jump"},
-		{K: "w", A: 0x0000, V: 0x0a}, {K: "w", A: 0x0000, V: 0x00}}
+		{K: "w", A: 0x0000, V: 0x0a}, {K: "w", A: 0x0000, V: 0x00},
+		{K: "dump"}} // the host takes a battery save (Mapper.DumpRAM): not an event of the emulated machine, nothing may change
 	for sel := uint8(8); sel <= 0x0c; sel++ {
 		evs = append(evs, c10Ev{K: "w", A: 0x4000, V: sel})
 	}
@@ -167,6 +168,8 @@ func (p *cartPair) c10Apply(ev c10Ev) *explore.Fail {
 	case "tick":
 		p.m.Map.EndMachineCycle()
 		p.mod.Clock.Tick()
+	case "dump":
+		_ = p.m.Map.DumpRAM()
 	case "jump":
 		// as if time had passed until 2 cycles before the next second (state placement by hook;
 		// the real tick path then crosses the boundary with the following tick events)
@@ -261,7 +264,7 @@ func c10Protocol(l *explore.Local, _ struct{}, c c10Case) *explore.Fail {
 func init() {
 	register("C10", "model_checking", func(c *Ctx) {
 		if c.R != nil {
-			c.R.Rule = "(a) every counter state s(64) x m(64) x h(32) x d(512) x carry(2) = 134,217,728, one real one-second step each, compared with the reference carry chain; (b) sub-second count preset to every value within 16 of the second boundary, 0-40 real Mapper cycles, all five registers observed through latch+read after every cycle, halted and running, plus an un-hooked run over 2 emulated seconds; (c) every sequence up to the depth bound over {latch 00/01, select 08-0C/RAM, write 10 values, enable/disable, 1 cycle, jump to 2 cycles before the next second}, the full guest-visible clock observed after every event"
+			c.R.Rule = "(a) every counter state s(64) x m(64) x h(32) x d(512) x carry(2) = 134,217,728, one real one-second step each, compared with the reference carry chain; (b) sub-second count preset to every value within 16 of the second boundary, 0-40 real Mapper cycles, all five registers observed through latch+read after every cycle, halted and running, plus an un-hooked run over 2 emulated seconds; (c) every sequence up to the depth bound over {latch 00/01, select 08-0C/RAM, write 10 values, enable/disable, 1 cycle, jump to 2 cycles before the next second, the host saving the cartridge RAM (DumpRAM)}, the full guest-visible clock observed after every event"
 			c.R.Assumptions = []string{"latch writes other than 00/01 are outside the alphabet (unspecified)", "out-of-range counter values wrap at their bit width without carry (Pan Docs)", "the 'jump' event places the sub-second count by hook; crossing the boundary is done by real ticks"}
 		}
 		explore.Product(c.R, "carry-chain", explore.PartOpt{Bound: "single step from every state", Domain: "all 134,217,728 counter states"},
